@@ -1,4 +1,6 @@
-"""Per-property configuration of the orchestrator: lanes x shards per tier, evidence level and rule."""
+"""Per-property configuration of the orchestrator: lanes x shards per tier, evidence level and rule,
+and the texts that gen_manifest.py puts into MANIFEST.json."""
+
 
 def L(dbg=0, rel=0, asan=0, miri=0, vg=0):
     d = {}
@@ -7,23 +9,104 @@ def L(dbg=0, rel=0, asan=0, miri=0, vg=0):
             d[k] = v
     return d
 
+
+NOTE = ("Trusted: the reference model and oracles in harness/src (model.rs, monitor.rs, ops.rs), the drop ledger, rustc/std "
+        "(std's vec::IntoIter as the ideal sequence), and the sanitizers' own detection limits. Holds only for the executions "
+        "enumerated within the bounds reported in the evidence file; says nothing about larger shapes or longer histories.")
+
+LANES_STD = {"quick": L(dbg=4, rel=4, asan=4, miri=8), "thorough": L(dbg=8, rel=8, asan=8, miri=16, vg=8)}
+LANES_HEAVY = {"quick": L(dbg=8, rel=8, asan=8, miri=8), "thorough": L(dbg=16, rel=16, asan=16, miri=16, vg=8)}
+
 PROPS = {
+    "C04": {
+        "level": "exploration",
+        "lanes": LANES_HEAVY,
+        "rule": "every proper non-empty window of every parent shape up to NxN x receiver {view_mut, nested view_mut of view_mut, third-party wrapper over view_mut} is one case; inside it every trait operation kind (indexed writes, fill, swap family, row_pair_mut, 7 walk patterns over rows_mut/col_mut/cells_mut incl. nth/nth_back/rev/step_by, copy/clone from slice and from owned/view/strided sources, copy_within, all 11 sort variants on every line, translate with every mid, flips) with valid arguments (exhaustive where cheap, seeded otherwise), on Copy and owning elements. Oracle: every parent cell outside the window unchanged; inside equals the model AND equals the same call on an owned twin holding the same cells; yielded addresses equal the expected parent cells. distinct = (receiver, parent shape, window, operation+arguments, element type); non-trivial = window is a proper sub-rectangle with >=1 cell and the case passed all oracles.",
+        "must_observe": ["accepted", "twin_comparisons", "addresses_compared"],
+        "text": "Runtime exploration: every mutating trait operation is executed on mutable views at every window position of every small parent, and the whole parent is diffed against a snapshot (outside) and a reference model plus an owned-twin differential (inside); the same executions run under ub_checks, release, ASan, Miri and memcheck.",
+        "design_ref": "DESIGN.md 5 (C04)", "technique": "runtime monitoring: snapshot diff + reference model + owned-twin differential, sanitizer lanes",
+    },
     "C06": {
         "level": "exploration", "exhaustive": True,
-        "lanes": {"quick": L(dbg=4, rel=4, asan=4, miri=8), "thorough": L(dbg=8, rel=8, asan=8, miri=16, vg=8)},
+        "lanes": LANES_STD,
         "rule": "bounded-exhaustive: every shape {(0,0)} u [1..N]^2 x capacity class {exact, reserve_exact, spare} x axis x element type {Kv(Copy), Tok(owning, ledger), Zst} is one case; inside it every index 0..=dim+1 and usize::MAX, every supplied length 0..=dim+1 (0..=N+1 on empty arrays), insert_* and push_* forms, four honest iterator kinds. distinct = (axis, shape, index, length, capacity class, element type, form, accepted|rejected); non-trivial = an accepted call that inserted >=1 element, or a rejection on a non-empty array, and the post-state passed shape+model+ledger checks.",
         "must_observe": ["accepted", "rejected"],
+        "text": "Bounded-exhaustive runtime exploration: every insert_row/insert_col/push_* call over all shapes up to NxN, all indices and lengths in and out of range, three element types and three capacity classes is executed against the real crate and compared cell-for-cell (by element identity) with a rows-of-cells model; the same executions run under debug assertions/ub_checks, release, AddressSanitizer, Miri and (thorough) memcheck.",
+        "design_ref": "DESIGN.md 5 (C06)", "technique": "runtime monitoring: reference-model oracle + drop ledger over exhaustive small-scope executions, under ASan/Miri/memcheck/ub_checks",
     },
     "C07": {
         "level": "exploration", "exhaustive": True,
-        "lanes": {"quick": L(dbg=4, rel=4, asan=4, miri=8), "thorough": L(dbg=8, rel=8, asan=8, miri=16, vg=8)},
+        "lanes": LANES_STD,
         "rule": "bounded-exhaustive: every shape x axis x capacity class x element type is one case; inside it every index 0..dim (plus dim, dim+1, usize::MAX which must be rejected, and pop on empty), remove_* and pop_* forms, every (front,back) split with front+back<=len in three interleavings (front-first, back-first, alternating) with len()/size_hint() probed after every take, then drop. distinct = (axis, shape, index, front, back, interleaving, element type, form); non-trivial = the drain and the post-drop array passed item/len/shape/model/ledger checks.",
         "must_observe": ["drain_items", "rejected"],
+        "text": "Bounded-exhaustive runtime exploration of remove_row/remove_col/pop_*: every index, every drain consumption split and interleaving, compared item-by-item with an ideal sequence and afterwards cell-for-cell with the model; the ledger shows each element owned exactly once; same executions under the sanitizer lanes.",
+        "design_ref": "DESIGN.md 5 (C07)", "technique": "runtime monitoring: ideal-sequence + reference-model oracle, drop ledger, ASan/Miri/memcheck/ub_checks",
+    },
+    "C08": {
+        "level": "exploration",
+        "lanes": LANES_HEAVY,
+        "rule": "case = (parent shape up to NxN, window incl. empty ones, receiver {owned, view, view of view, view_mut, nested view_mut, view of view_mut}, iterator {rows, rows_mut}); inside it every call script up to depth 2 over {next, next_back, len, nth(n), nth_back(n)} with n in {0,1,2,rem-1,rem,rem+1,C-1,C,C+1,2C,C*R,usize::MAX,usize::MAX/stride+1,2^63}, depth 3-4 over a reduced alphabet, seeded random scripts of length 4-12, each followed by a terminal {drop,count,last,fold,rfold,collect,rev-collect}; every result compared (items by address and length) with std's vec::IntoIter over the expected rows; yielded &mut rows kept alive, checked disjoint and written through. distinct = (parent, window, receiver, iterator) for which all scripts agreed; iterator states reached are counted separately.",
+        "must_observe": ["iter_calls", "iter_states"],
+        "text": "Runtime exploration over call sequences: rows()/rows_mut() of every receiver kind are driven by enumerated and random method scripts side by side with std's vec::IntoIter (the ideal double-ended exact-size sequence); results are compared by address, &mut rows are checked pairwise disjoint and written through to the parent.",
+        "design_ref": "DESIGN.md 5 (C08-C10)", "technique": "runtime monitoring: differential against an ideal sequence over enumerated call scripts, address-identity oracle, sanitizer lanes",
+    },
+    "C09": {
+        "level": "exploration",
+        "lanes": LANES_HEAVY,
+        "rule": "as C08 for col(c)/col_mut(c) of every column c of every window, with [i] on the remaining sequence added to the alphabet (i in {0,1,rem-1,rem,usize::MAX,usize::MAX/stride+1,2^63}: in range must denote the ideal item, out of range must panic), plus col(c)/col_mut(c) with c out of range on every receiver (must panic). distinct = (parent, window, receiver, iterator incl. column) for which all scripts agreed.",
+        "must_observe": ["iter_calls", "index_calls", "rejected"],
+        "text": "Runtime exploration over call sequences: col()/col_mut() of every column of every receiver kind driven by enumerated and random scripts (including indexing the remaining sequence with wrap-provoking indices) against std's vec::IntoIter; address identity, write-through and out-of-range rejection.",
+        "design_ref": "DESIGN.md 5 (C08-C10)", "technique": "runtime monitoring: differential against an ideal sequence over enumerated call scripts, address-identity oracle, sanitizer lanes",
+    },
+    "C10": {
+        "level": "exploration",
+        "lanes": LANES_HEAVY,
+        "rule": "as C08 for cells(), cells_mut() and the IntoIterator forms on &T / &mut T of owned arrays, views and mutable views; n values span within-row, row-crossing, exact-row-multiple, beyond-end and usize::MAX jumps from every combination of partially consumed front/back rows. distinct = (parent, window, receiver, iterator) for which all scripts agreed.",
+        "must_observe": ["iter_calls", "iter_states"],
+        "text": "Runtime exploration over call sequences: cells()/cells_mut()/IntoIterator forms driven by enumerated and random scripts against std's vec::IntoIter over the row-major cell list; every cell yielded exactly once, by address, and written through.",
+        "design_ref": "DESIGN.md 5 (C08-C10)", "technique": "runtime monitoring: differential against an ideal sequence over enumerated call scripts, address-identity oracle, sanitizer lanes",
+    },
+    "C13": {
+        "level": "exploration", "exhaustive": True,
+        "lanes": LANES_STD,
+        "rule": "case = (receiver shape up to NxN incl. empty, implementor placement {TooDee, TooDeeViewMut interior/edge/full windows, nested view, view over a slice, third-party Thin wrapper over owned and over view (trait defaults incl. default swap_rows)}); inside: fill, and swap / swap_rows / swap_cols / row_pair_mut over ALL index pairs from 0..=dim+1 u {usize::MAX} (equal, reversed, one or both out of range), on Copy and owning elements. Oracle: whole-parent model diff, (address,len) and order of row_pair_mut slices, must-panic rule. distinct = (implementor, shape, window, op+indices, accepted|rejected, element type).",
+        "must_observe": ["accepted", "rejected", "addresses_compared"],
+        "text": "Bounded-exhaustive runtime exploration of the swap/fill primitives on all three kinds of implementor (owned overrides, view overrides, trait defaults via a third-party wrapper): every index pair in and out of range, compared with the model over the whole parent buffer.",
+        "design_ref": "DESIGN.md 5 (C13)", "technique": "runtime monitoring: reference-model diff + must-panic rule over exhaustive index pairs, sanitizer lanes",
+    },
+    "C14": {
+        "level": "exploration", "exhaustive": True,
+        "lanes": LANES_STD,
+        "rule": "case = (destination shape up to NxN incl. empty, destination placement {owned, view windows, nested, direct, Thin; zero-extent windows at several positions}); inside: copy_from_slice/clone_from_slice with source length cells-1, cells, cells+1; copy_from_toodee/clone_from_toodee from owned / view / strided view_mut sources of equal, wider, taller, transposed and flattened size; copy_within for every source rectangle (valid ones and a sample of invalid ones) x every destination corner 0..=dim+1. Oracle: model diff over the whole parent (snapshot semantics for copy_within), must-panic rule. distinct = (placement, shape, op+arguments, accepted|rejected, element type).",
+        "must_observe": ["accepted", "rejected"],
+        "text": "Bounded-exhaustive runtime exploration of the copy operations: all source kinds and size relations, all copy_within rectangle/destination pairs (every overlap direction), empty destinations included, compared with the model over the whole parent buffer.",
+        "design_ref": "DESIGN.md 5 (C14)", "technique": "runtime monitoring: reference-model diff + must-panic rule over exhaustive rectangles, sanitizer lanes",
+    },
+    "C15": {
+        "level": "exploration", "exhaustive": True,
+        "lanes": LANES_STD,
+        "rule": "case = (shape up to NxN, receiver placement {owned, interior view, nested, Thin, direct}); inside: translate_with_wrap for every mid in (0..=C+1 u {usize::MAX}) x (0..=R+1 u {usize::MAX}), flip_rows, flip_cols, on Copy and (small shapes) owning elements. Oracle: the closed-form bijection cell by cell over the whole parent, must-panic for larger mids, per-case CPU bound for termination. distinct = (placement, shape, op+mid, accepted|rejected, element type).",
+        "must_observe": ["accepted", "rejected"],
+        "text": "Bounded-exhaustive runtime exploration of translate_with_wrap and the flips: every shape up to NxN and every mid, compared cell by cell with the stated formula; covers every gcd cycle structure and column offset within the bound.",
+        "design_ref": "DESIGN.md 5 (C15)", "technique": "runtime monitoring: closed-form oracle over exhaustive (shape, mid) pairs, CPU-bounded progress, sanitizer lanes",
+    },
+    "C16": {
+        "level": "exploration", "exhaustive": True,
+        "lanes": LANES_STD,
+        "rule": "case = (shape up to NxN, receiver placement {owned, interior view, nested, Thin over owned/view}, row index 0..=R+1 u {usize::MAX}); inside: every key row over the alphabet {0,1,2} (all 3^C tie patterns) x six variants (ord, unstable ord, by closure, unstable by closure, by key, unstable by key) x ascending/descending (reversing key function). Oracle: stable variants equal the model's stable sort of whole columns cell-for-cell (by element identity); unstable variants: key row ordered and the multiset of whole columns preserved; outside of the window unchanged; owned-twin differential for views; must-panic for out-of-range rows. distinct = (placement, shape, variant, row, direction, key pattern, element type); non-trivial = key pattern not already sorted, or a rejection.",
+        "must_observe": ["accepted", "rejected"],
+        "text": "Bounded-exhaustive runtime exploration of the six sort-by-row variants: all tie patterns over a 3-letter alphabet, every row index, three kinds of implementor, Copy and owning elements, compared with a stable-sort model / permutation-of-columns check.",
+        "design_ref": "DESIGN.md 5 (C16/C17)", "technique": "runtime monitoring: stable-sort reference model + permutation check over all tie patterns, drop ledger, sanitizer lanes",
+    },
+    "C17": {
+        "level": "exploration", "exhaustive": True,
+        "lanes": LANES_STD,
+        "rule": "as C16 for the five sort-by-column variants (ord, by closure, unstable by closure, by key, unstable by key): every key column over {0,1,2}, every column index 0..=C+1 u {usize::MAX}, non-square shapes included; Thin receivers run the trait-default swap_rows.",
+        "must_observe": ["accepted", "rejected"],
+        "text": "Bounded-exhaustive runtime exploration of the five sort-by-column variants: all tie patterns, every column index, three kinds of implementor, compared with a stable-sort model / permutation-of-rows check.",
+        "design_ref": "DESIGN.md 5 (C16/C17)", "technique": "runtime monitoring: stable-sort reference model + permutation check over all tie patterns, drop ledger, sanitizer lanes",
     },
 }
 
-_NOTE = "Trusted: the reference model (harness/src/model.rs), the drop ledger, rustc/std, and the sanitizers' own detection limits. Says nothing beyond the enumerated bounds reported in the evidence file."
-MANIFEST_TEXT = {
-    "C06": {"text": "Bounded-exhaustive runtime exploration: every insert_row/insert_col/push_* call over all shapes up to NxN, all indices and lengths in and out of range, three element types and three capacity classes is executed against the real crate and compared cell-for-cell (by element identity) with a rows-of-cells model; the same executions run under debug assertions/ub_checks, release, AddressSanitizer, Miri and (thorough) memcheck.", "design_ref": "DESIGN.md 5 (C06)", "note": _NOTE, "technique": "runtime monitoring: reference-model oracle + drop ledger over exhaustive small-scope executions, under ASan/Miri/memcheck/ub_checks"},
-    "C07": {"text": "Bounded-exhaustive runtime exploration of remove_row/remove_col/pop_*: every index, every drain consumption split and interleaving, compared item-by-item with an ideal sequence and afterwards cell-for-cell with the model; ledger proves each element is owned exactly once; same executions under the sanitizer lanes.", "design_ref": "DESIGN.md 5 (C07)", "note": _NOTE, "technique": "runtime monitoring: ideal-sequence + reference-model oracle, drop ledger, ASan/Miri/memcheck/ub_checks"},
-}
+for _p in PROPS.values():
+    _p.setdefault("note", NOTE)
